@@ -80,6 +80,7 @@ fn main() {
         "dispatch" => dispatch::main(&args),
         "prims" => prims::main(&args),
         "replay" => replay::main(&args),
+        "freewalk" => replay::main_free(&args),
         "replay-script" => replay::main_script(&args),
         other => {
             eprintln!("unknown command {other}");
